@@ -24,6 +24,12 @@ CHECKS = {
     "C03": C("c03", dict(checks=500, shards=4, timeout=900), dict(checks=8000, shards=16, timeout=6000),
              "property-based testing (rapid): generated worlds of every implementation, edit histories and query trees; oracle: independent three-valued evaluation of the query over the model's current tags, plus order and uniqueness of the result",
              "Trusted: the evaluator in harness/c03 (Query.Matches is not used: Typed.Matches ignores its inner query). 'all' on a point that is or ever was untagged is Unknown (bare points are documented as not indexed). Tagged leaves use # keys, keyed leaves # and @ keys."),
+    "C04": C("c04", dict(checks=400, shards=4, timeout=900), dict(checks=8000, shards=16, timeout=6000),
+             "property-based testing (rapid): generated geometries and spatial queries; differential between the indexed search (FindFeatures) and brute-force evaluation of the query's own Matches over every enumerated feature",
+             "Trusted: the query's Matches (its correctness is C05's subject) and EachFeature. All generated features are indexed (points carry a tag)."),
+    "C05": C("c05", dict(checks=1500, shards=4, timeout=900), dict(checks=30000, shards=16, timeout=6000),
+             "property-based testing (rapid): generated query regions and feature geometries; oracle: exact predicates written from s2 primitives independently of spatial.go, with a 1e-9 rad exclusion margin",
+             "Trusted: s2's point-in-polygon, DistanceFromSegment and CrossingSign; the exclusion of pairs whose decisive margin is below 1e-9 rad (as the property states); for points against paths/polylines the implementation's 1 mm tolerance zone (0 < d <= 1e-8 rad) is excluded."),
     "C06": C("c06", dict(checks=5000, shards=2, timeout=300), dict(checks=50000, shards=16, timeout=3000),
              "property-based testing (rapid): generated indices, query trees and Next/Advance call scripts on three index back ends compared with a set-algebra denotation and a sorted-slice iterator model",
              "Trusted: the set denotation and position model in harness/c06. The empty intersection (which would denote the universe and indexes iterators[0]) is outside the domain; scripts stop at the first false result because behaviour after exhaustion differs between back ends and is unspecified."),
